@@ -16,14 +16,34 @@ fn config(k: usize) -> (&'static str, ParserConfig<'static>) {
 }
 const NCONFIG: usize = 4;
 
+/// C02 "never hangs": the input being parsed and when its parse started; a watchdog thread reports a parse that
+/// has been running for more than HANG_SECS (every input here is < 20 kB and parses in milliseconds) as a failing input
+static CURRENT: std::sync::Mutex<Option<(std::time::Instant, String, &'static str)>> = std::sync::Mutex::new(None);
+const HANG_SECS: u64 = 20;
+
+fn start_watchdog() {
+    std::thread::spawn(|| loop {
+        std::thread::sleep(std::time::Duration::from_millis(500));
+        let g = CURRENT.lock().unwrap();
+        if let Some((t0, text, name)) = g.as_ref() {
+            if t0.elapsed().as_secs() >= HANG_SECS {
+                println!("FOUND hex={} [config {name}] HANG: the parse has not returned after {HANG_SECS} s", hex(text));
+                std::process::exit(1);
+            }
+        }
+    });
+}
+
 fn lossless(text: &str) -> Result<(), String> {
     for k in 0..NCONFIG {
+        *CURRENT.lock().unwrap() = Some((std::time::Instant::now(), text.to_string(), config(k).0));
         let t = text.to_string();
         let r = std::panic::catch_unwind(move || {
             let (_, c) = config(k);
             let tree = LuaParser::parse(&t, c);
             tree.get_red_root().text().to_string()
         });
+        *CURRENT.lock().unwrap() = None;
         let name = config(k).0;
         let show = |s: &str| if s.len() > 80 { format!("{:?}… ({} bytes)", &s[..s.char_indices().nth(60).map(|x| x.0).unwrap_or(s.len())], s.len()) } else { format!("{s:?}") };
         match r {
@@ -58,6 +78,7 @@ const ATOMS: &[&str] = &["x", " ", "\n", ";", "{", "}", "(", ")", ",", "do", "en
 
 fn main() {
     std::panic::set_hook(Box::new(|_| {}));
+    start_watchdog();
     let a: Vec<String> = std::env::args().skip(1).collect();
     match a.first().map(|s| s.as_str()) {
         Some("hex") => {
